@@ -13,6 +13,7 @@ import (
 	"hash/fnv"
 	"os"
 	"sort"
+	"strings"
 	"sync"
 )
 
@@ -176,6 +177,7 @@ func (c *Ctx) Sample(v any) {
 // Violate records a violation; at most 3 replays are kept per key per shard
 // (the count per key is always kept).
 func (c *Ctx) Violate(property, key, what string, replay any) {
+	key = SanitizeKey(key)
 	b, err := json.Marshal(replay)
 	if err != nil {
 		b, _ = json.Marshal(fmt.Sprintf("unserialisable replay: %v", err))
@@ -264,3 +266,32 @@ func IDs() []string {
 	sort.Strings(ids)
 	return ids
 }
+
+// TakeViolations returns and clears the violations recorded so far (used by
+// Replay functions that re-run a check's oracle on a fresh Ctx).
+func (c *Ctx) TakeViolations() []Violation {
+	c.mu.Lock()
+	defer c.mu.Unlock()
+	v := c.res.Violations
+	c.res.Violations = nil
+	c.vkeys = map[string]int{}
+	return v
+}
+
+// FilterKey keeps the violations with the given key ("" keeps all).
+func FilterKey(vs []Violation, key string) []Violation {
+	if key == "" {
+		return vs
+	}
+	var out []Violation
+	for _, v := range vs {
+		if v.Key == key {
+			out = append(out, v)
+		}
+	}
+	return out
+}
+
+// SanitizeKey makes a finding key a single token (the findings file is
+// whitespace separated).
+func SanitizeKey(k string) string { return strings.Join(strings.Fields(k), "_") }
